@@ -1089,7 +1089,8 @@ pub fn make_dsmap(rng: &mut Rng, entries: Vec<(u16, u16)>) -> DsMap {
     let max_inner = entries.iter().map(|e| e.1).max().unwrap_or(0) as u32;
     let max_outer = entries.iter().map(|e| e.0).max().unwrap_or(0) as u32;
     let need_inner = (32 - max_inner.leading_zeros()).max(1) as u8;
-    let inner_bits = (need_inner + if rng.chance(1, 2) { rng.below(4) as u8 } else { 0 }).min(16);
+    // one map in eight uses the widest legal inner index (entryFormat low nibble 0xF = 16 bits)
+    let inner_bits = if rng.chance(1, 8) { 16 } else { (need_inner + if rng.chance(1, 2) { rng.below(4) as u8 } else { 0 }).min(16) };
     let need_outer = 32 - max_outer.leading_zeros();
     let need_bytes = (((inner_bits as u32 + need_outer) + 7) / 8).max(1) as u8;
     let entry_size = (need_bytes + if rng.chance(1, 3) { 1 } else { 0 }).min(4);
